@@ -186,6 +186,8 @@ def run_themes(names, tier='quick', rep=None, overrides=None, jobs=6):
     (one tree per token string) - DESIGN 3.2 sanity obligation."""
     overrides = overrides or {}
     out = {}
+    if tier != 'quick':
+        jobs = min(jobs, 4)     # thorough themes need a 6 GB heap each
 
     def one(n):
         return n, run_theme(n, tier, **overrides.get(n, {}))
